@@ -1,3 +1,298 @@
 import BB.Driver.Util
-/-! Placeholder driver for C19 (replaced when the model is built). -/
-def main : IO Unit := BB.Driver.loop (fun (s : Unit) _ => (s, "unimplemented")) ()
+import BB.Model.Routing
+/-!
+Line-protocol driver of the C19 routing model.
+
+Names are written `a/b/c`, the empty name `-`; digests `<name>:<hash>`; digest lists are
+comma-separated (`_` = empty) and printed sorted without duplicates.
+
+    t.reset | t.set <name> <v> | t.remove <name> -> panic | empty=<bool>
+    t.exact <name> -> <int>      t.longest <name> -> <trie walk> <list spec>
+    t.hasprefix <name> -> <bool>
+    p.patch <old> <new> <name> -> <components> <string level>      p.unpatch likewise
+    d.cfg <match>=<add> ...      d.store <b> <digest> <payload>    d.fault <b> fm|get|put|getc <code>
+    d.get <digest> | d.getc <parent> <child> | d.put <digest> <payload> -> call=... res=...
+    d.fm <order> <digests> -> calls=<b>:<digests>;... res=ok:<digests> | res=err:<code>:<msg>
+    h.reset | h.store <digest> <payload> | h.fault get <digest> <code> | h.fault fm <k> <code>
+    h.get <digest> | h.getc <parent> <child> -> calls=... res=...
+    h.fm <digests> -> calls=<digests>;<digests>;... res=...
+-/
+open BB.Driver BB.Routing
+
+/-! parsing / printing -/
+
+def splitOn (sep : Char) (cs : List Char) : List (List Char) :=
+  let rec go (cs : List Char) (cur : List Char) (acc : List (List Char)) : List (List Char) :=
+    match cs with
+    | [] => (cur.reverse :: acc).reverse
+    | c :: rest => if c == sep then go rest [] (cur.reverse :: acc) else go rest (c :: cur) acc
+  go cs [] []
+
+def name? (s : String) : Option Name :=
+  if s == "-" then some [] else
+  let parts := splitOn '/' s.toList
+  if parts.any (·.isEmpty) then none else some parts
+
+def nameStr (n : Name) : String := if n.isEmpty then "-" else showName n
+
+def dg? (s : String) : Option Dg :=
+  match splitOn ':' s.toList with
+  | [n, h] =>
+    match name? (String.ofList n), (String.ofList h).toNat? with
+    | some n, some h => some ⟨n, h⟩
+    | _, _ => none
+  | _ => none
+
+def dgs? (s : String) : Option (List Dg) :=
+  if s == "_" then some [] else (splitOn ',' s.toList).mapM (fun w => dg? (String.ofList w))
+
+def nats? (s : String) : Option (List Nat) :=
+  if s == "_" then some [] else (splitOn ',' s.toList).mapM (fun w => (String.ofList w).toNat?)
+
+def dgStr (d : Dg) : String := s!"{nameStr d.name}:{d.hash}"
+
+def dgLe (a b : Dg) : Bool :=
+  let x := nameStr a.name
+  let y := nameStr b.name
+  x < y || (x == y && a.hash ≤ b.hash)
+
+def canon (l : List Dg) : List Dg := (l.mergeSort dgLe).eraseDups
+
+def dgsStr (l : List Dg) : String :=
+  if l.isEmpty then "_" else ",".intercalate (l.map dgStr)
+
+def setStr (l : List Dg) : String := dgsStr (canon l)
+
+def errStr (e : Err) : String :=
+  s!"err:{e.code}:{e.msg.map (fun c => if c == ' ' then '_' else c)}"
+
+def getResStr : GetRes → String
+  | .ok p => s!"ok:{p}"
+  | .err e => errStr e
+
+def fmResStr : Except Err (List Dg) → String
+  | .ok l => s!"ok:{setStr l}"
+  | .error e => errStr e
+
+def optInt (o : Option Nat) : String := match o with | some v => toString v | none => "-1"
+
+/-! state -/
+
+structure Backend where
+  contents : List (Dg × Nat) := []
+  fmFault : Nat := 0
+  getFault : Nat := 0
+  putFault : Nat := 0
+  getcFault : Nat := 0
+
+structure S where
+  trie : Node := Node.empty
+  spec : Spec := []
+  cfg : Cfg := []
+  backends : List Backend := []
+  hstore : List (Dg × Nat) := []
+  hGetFaults : List (Dg × Nat) := []
+  hFmFault : Option (Nat × Nat) := none
+
+def lookupDg (l : List (Dg × Nat)) (d : Dg) : Option Nat :=
+  match l.find? (fun e => e.1 == d) with
+  | some e => some e.2
+  | none => none
+
+def notFoundErr : Err := { code := codeNotFound, msg := "not found" }
+
+def S.backend (s : S) (b : Nat) : Backend := s.backends.getD b {}
+
+def S.get (s : S) (b : Nat) (d : Dg) : GetRes :=
+  let be := s.backend b
+  if be.getFault ≠ 0 then .err { code := be.getFault, msg := s!"injected get b{b}" }
+  else match lookupDg be.contents d with
+    | some p => .ok p
+    | none => .err notFoundErr
+
+def S.getc (s : S) (b : Nat) (_p c : Dg) : GetRes :=
+  let be := s.backend b
+  if be.getcFault ≠ 0 then .err { code := be.getcFault, msg := s!"injected getc b{b}" }
+  else match lookupDg be.contents c with
+    | some p => .ok p
+    | none => .err notFoundErr
+
+def S.put (s : S) (b : Nat) (_d : Dg) : Option Err :=
+  let be := s.backend b
+  if be.putFault ≠ 0 then some { code := be.putFault, msg := s!"injected put b{b}" } else none
+
+def S.fm (s : S) (b : Nat) : FM := fun asked =>
+  let be := s.backend b
+  if be.fmFault ≠ 0 then .error { code := be.fmFault, msg := s!"injected fm b{b}" }
+  else .ok (asked.filter fun d => (lookupDg be.contents d).isNone)
+
+def S.hget (s : S) (d : Dg) : GetRes :=
+  match lookupDg s.hGetFaults d with
+  | some c => .err { code := c, msg := s!"injected get {dgStr d}" }
+  | none => match lookupDg s.hstore d with
+    | some p => .ok p
+    | none => .err notFoundErr
+
+def S.hgetc (s : S) (p c : Dg) : GetRes :=
+  match lookupDg s.hGetFaults p with
+  | some code => .err { code := code, msg := s!"injected get {dgStr p}" }
+  | none => match lookupDg s.hstore c with
+    | some v => .ok v
+    | none => .err notFoundErr
+
+def S.hfm (s : S) (k : Nat) : FM := fun asked =>
+  match s.hFmFault with
+  | some (k', c) =>
+    if k = k' then .error { code := c, msg := s!"injected fm call {k}" }
+    else .ok (asked.filter fun d => (lookupDg s.hstore d).isNone)
+  | none => .ok (asked.filter fun d => (lookupDg s.hstore d).isNone)
+
+def setBackend (s : S) (b : Nat) (f : Backend → Backend) : S :=
+  { s with backends := (List.range s.backends.length).map fun i =>
+      if i = b then f (s.backend i) else s.backend i }
+
+def storeDg (l : List (Dg × Nat)) (d : Dg) (p : Nat) : List (Dg × Nat) :=
+  (d, p) :: l.filter (fun e => e.1 != d)
+
+def cfgEntry? (w : String) : Option (Name × Name) :=
+  match splitOn '=' w.toList with
+  | [m, a] =>
+    match name? (String.ofList m), name? (String.ofList a) with
+    | some m, some a => some (m, a)
+    | _, _ => none
+  | _ => none
+
+def boolStr (b : Bool) : String := if b then "true" else "false"
+
+def step (s : S) (line : String) : S × String :=
+  match words line with
+  | ["t.reset"] => ({ s with trie := Node.empty, spec := [] }, "ok")
+  | ["t.set", n, v] =>
+    match name? n, nat? v with
+    | some n, some v =>
+      ({ s with trie := applyOp s.trie (.set n v), spec := specApply s.spec (.set n v) }, "ok")
+    | _, _ => (s, "bad-op")
+  | ["t.remove", n] =>
+    match name? n with
+    | some n =>
+      let s' := { s with trie := applyOp s.trie (.remove n), spec := specApply s.spec (.remove n) }
+      match remove s.trie n with
+      | some (_, e) => (s', s!"empty={boolStr e}")
+      | none => (s', "panic")
+    | none => (s, "bad-op")
+  | ["t.exact", n] =>
+    match name? n with
+    | some n => (s, optInt (exact s.trie n))
+    | none => (s, "bad-op")
+  | ["t.longest", n] =>
+    match name? n with
+    | some n => (s, s!"{optInt (longest s.trie n)} {optInt (specLongest s.spec n)}")
+    | none => (s, "bad-op")
+  | ["t.hasprefix", n] =>
+    match name? n with
+    | some n => (s, boolStr (containsPrefix s.trie n))
+    | none => (s, "bad-op")
+  | ["p.patch", o, n, i] =>
+    match name? o, name? n, name? i with
+    | some o, some n, some i =>
+      (s, s!"{nameStr (patchName o n i)} {nameStr' (patchStr (joinS o) (joinS n) (joinS i))}")
+    | _, _, _ => (s, "bad-op")
+  | ["p.unpatch", o, n, i] =>
+    match name? o, name? n, name? i with
+    | some o, some n, some i =>
+      (s, s!"{nameStr (patchName n o i)} {nameStr' (patchStr (joinS n) (joinS o) (joinS i))}")
+    | _, _, _ => (s, "bad-op")
+  | "d.cfg" :: ws =>
+    match ws.mapM cfgEntry? with
+    | some cfg =>
+      if (cfg.map (·.1)).eraseDups.length ≠ cfg.length then (s, "bad-op") else
+      ({ s with cfg := cfg, backends := cfg.map fun _ => {} }, "ok")
+    | none => (s, "bad-op")
+  | ["d.store", b, d, p] =>
+    match nat? b, dg? d, nat? p with
+    | some b, some d, some p =>
+      if b ≥ s.backends.length then (s, "bad-op") else
+      (setBackend s b fun be => { be with contents := storeDg be.contents d p }, "ok")
+    | _, _, _ => (s, "bad-op")
+  | ["d.fault", b, op, c] =>
+    match nat? b, nat? c with
+    | some b, some c =>
+      if b ≥ s.backends.length then (s, "bad-op") else
+      match op with
+      | "fm" => (setBackend s b fun be => { be with fmFault := c }, "ok")
+      | "get" => (setBackend s b fun be => { be with getFault := c }, "ok")
+      | "put" => (setBackend s b fun be => { be with putFault := c }, "ok")
+      | "getc" => (setBackend s b fun be => { be with getcFault := c }, "ok")
+      | _ => (s, "bad-op")
+    | _, _ => (s, "bad-op")
+  | ["d.get", d] =>
+    match dg? d with
+    | some d =>
+      let (call, res) := demuxGet (cfgGetter s.cfg) s.get d
+      let c := match call with | some (b, d') => s!"{b}:{dgStr d'}" | none => "none"
+      (s, s!"call={c} res={getResStr res}")
+    | none => (s, "bad-op")
+  | ["d.getc", p, c] =>
+    match dg? p, dg? c with
+    | some p, some c =>
+      let (call, res) := demuxGetFromComposite (cfgGetter s.cfg) s.getc p c
+      let cs := match call with | some (b, p', c') => s!"{b}:{dgStr p'}|{dgStr c'}" | none => "none"
+      (s, s!"call={cs} res={getResStr res}")
+    | _, _ => (s, "bad-op")
+  | ["d.put", d, p] =>
+    match dg? d, nat? p with
+    | some d, some p =>
+      let (call, res) := demuxPut (cfgGetter s.cfg) s.put d
+      match call, res with
+      | some (b, d'), none =>
+        (setBackend s b fun be => { be with contents := storeDg be.contents d' p }, s!"call={b}:{dgStr d'} res=ok")
+      | some (b, d'), some e => (s, s!"call={b}:{dgStr d'} res={errStr e}")
+      | none, some e => (s, s!"call=none res={errStr e}")
+      | none, none => (s, "call=none res=ok")
+    | _, _ => (s, "bad-op")
+  | ["d.fm", o, ds] =>
+    match nats? o, dgs? ds with
+    | some o, some ds =>
+      let (calls, res) := demuxFindMissing (cfgGetter s.cfg) s.fm o ds
+      let cs := if calls.isEmpty then "none" else ";".intercalate (calls.map fun (b, l) => s!"{b}:{setStr l}")
+      (s, s!"calls={cs} res={fmResStr res}")
+    | _, _ => (s, "bad-op")
+  | ["h.reset"] => ({ s with hstore := [], hGetFaults := [], hFmFault := none }, "ok")
+  | ["h.store", d, p] =>
+    match dg? d, nat? p with
+    | some d, some p => ({ s with hstore := storeDg s.hstore d p }, "ok")
+    | _, _ => (s, "bad-op")
+  | ["h.fault", "get", d, c] =>
+    match dg? d, nat? c with
+    | some d, some c =>
+      ({ s with hGetFaults := if c = 0 then s.hGetFaults.filter (fun e => e.1 != d) else storeDg s.hGetFaults d c }, "ok")
+    | _, _ => (s, "bad-op")
+  | ["h.fault", "fm", k, c] =>
+    match nat? k, nat? c with
+    | some k, some c => ({ s with hFmFault := if c = 0 then none else some (k, c) }, "ok")
+    | _, _ => (s, "bad-op")
+  | ["h.get", d] =>
+    match dg? d with
+    | some d =>
+      let (calls, res) := hierGet s.hget d
+      (s, s!"calls={dgsStr calls} res={getResStr res}")
+    | none => (s, "bad-op")
+  | ["h.getc", p, c] =>
+    match dg? p, dg? c with
+    | some p, some c =>
+      if p.name ≠ c.name then (s, "bad-op") else
+      let (calls, res) := hierGetFromComposite s.hgetc p c
+      let cs := ",".intercalate (calls.map fun (a, b) => s!"{dgStr a}|{dgStr b}")
+      (s, s!"calls={cs} res={getResStr res}")
+    | _, _ => (s, "bad-op")
+  | ["h.fm", ds] =>
+    match dgs? ds with
+    | some ds =>
+      let (calls, res) := hierFindMissing s.hfm ds
+      (s, s!"calls={";".intercalate (calls.map setStr)} res={fmResStr res}")
+    | none => (s, "bad-op")
+  | _ => (s, "bad-op")
+where
+  nameStr' (cs : List Char) : String := if cs.isEmpty then "-" else String.ofList cs
+
+def main : IO Unit := loop step {}
